@@ -396,7 +396,16 @@ def check_case(ctx, case, progs=None, nprog=3, seeds=True):
             # is the randomness involved at all?  same program over from_array(r0)
             try:
                 with dask.config.set({"array.optimize-graph": opt}):
-                    alt = run_prog(prog, da.from_array(r0, chunks=x.chunks), True).compute(**SYNC)
+                    if case["dist"] == "permutation":
+                        # the non-random analogue of a permutation is the same take with a fixed index
+                        n0 = int(np.prod(case["shape"]))
+                        base = da.from_array(np.arange(n0, dtype=np.int64) * 3 + 1, chunks=(tuple(case["chunks"][0]),))
+                        from dask_array.slicing._utils import shuffle_slice
+
+                        analog = shuffle_slice(base, np.array([int(v) for v in (r0 - 1) // 3]))
+                    else:
+                        analog = da.from_array(r0, chunks=x.chunks)
+                    alt = run_prog(prog, analog, True).compute(**SYNC)
                 generic = not same(alt, want, approx)
             except Exception:
                 generic = True
